@@ -4,6 +4,9 @@
 use vstd::prelude::*;
 use std::ops::{Index, IndexMut, Range};
 use std::collections::BTreeMap;
+use std::collections::HashMap;
+use std::collections::hash_map::Entry;
+use std::hash::{Hash, Hasher};
 use std::time::Instant;
 use vstd::std_specs::core::{IndexSpec, IndexSpecImpl};
 use vstd::std_specs::cmp::*;
